@@ -821,7 +821,9 @@ def p_C16(ctx):
     ctx.extra["fault_files"] = len(faults)
     sample_lib = [json.loads(l) for l in open(tpath).readlines()[200:202]]
     # --- out of process: the real program (debug profile) on the same bytes, on valid texts and on option atoms
-    recs = [dict(c) for c in (faults if not ctx.quick else faults[::2] + faults[1::6])]
+    metaf = [c for c in faults if c.get("base") == -1]       # interpreted metadata with atoms as values: always all of them
+    other = [c for c in faults if c.get("base") != -1]
+    recs = [dict(c) for c in metaf + (other if not ctx.quick else other[::2] + other[1::6])]
     texts = [{"kind": "text", "text": t, "loc": loc} for t in C08_SHAPES for loc in ("PENINSULA", "CANARIAS")]
     texts += [{"kind": "text", "text": t, "extra": ["-F"]} for t in C08_SHAPES]
     c06 = ctx.mc("MC_Comp", "MC_Comp_C06_thorough.cfg")
